@@ -7,7 +7,7 @@ from ..core import AnalysisError, norm, walk_no_nested
 from ..flow import Aff, Facts, cmp_to_constraints
 
 META = {
-    'design_ref': 'DESIGN.md §3 C03',
+    'design_ref': 'DESIGN.md §5 C03',
     'technique': 'path-sensitive abstract interpretation of the comparison routines over position configurations with linear facts (Fourier-Motzkin entailment); operator table and version_compare from path enumeration with substitution; character order chain from the paths of _order with regex literals and constant tables (constant folding of computed tables) evaluated per character class; chunk-partition language check; taint rule for hash/equality agreement',
     'level_text': 'Static decision of necessary conditions: the six operators are _compare(other) <op> 0; epochs are compared as integers '
                   'with absent = 0 and decide alone only when they differ numerically; upstream then revision with the same default on both '
